@@ -19,11 +19,13 @@ for f in sorted(glob.glob(os.path.join(V, "seeded", "*", "meta.json"))):
 out = ["", "| property | seeded change (dir under seeded/) | file(s) changed | caught by | first signatures reported | history |", "|---|---|---|---|---|---|"]
 for r in rows:
     out.append("| %s | %s | %s | %s | %s | %s |" % r)
-caught = sum(1 for r in rows if r[3] != "MISSED")
+caught = sum(1 for r in rows if r[3] in ("quick", "thorough"))
+neutral = sum(1 for r in rows if r[3] == "neutralised")
+missed = sum(1 for r in rows if r[3] == "MISSED")
 first_miss = sum(1 for r in rows if r[5])
 out.append("")
-out.append("%d changes kept, %d caught by the current checks (%d in the quick tier); %d of them were MISSED by the first version of their check and led to a stronger scenario (history column)."
-           % (len(rows), caught, sum(1 for r in rows if r[3] == "quick"), first_miss))
+out.append("%d changes kept, %d caught by the current checks (%d in the quick tier), %d left uncaught on purpose (judged outside their statements, see their history), %d neutralised by a later repair in /repo (no longer a breaking change on the repaired tree); rows with a history were MISSED by the first version of their check, or caught only in the thorough tier, and led to a stronger scenario."
+           % (len(rows), caught, sum(1 for r in rows if r[3] == "quick"), missed, neutral))
 out.append("")
 block = "\n".join(out)
 p = os.path.join(V, "DESIGN.md")
